@@ -245,10 +245,10 @@ class LocalFileStore(Store):
                 _logger.debug(f"Creating dir {loc_dir}")
                 os.makedirs(loc_dir)
             loc_blob = os.path.join(self._root, "blobs", key)
-            if os.path.exists(loc) and os.path.realpath(loc) == loc_blob:
+            if os.path.lexists(loc) and os.path.realpath(loc) == loc_blob:
                 _logger.debug(f"Link {loc} up to date")
             else:
-                if os.path.exists(loc):
+                if os.path.lexists(loc):
                     os.remove(loc)
                 _logger.info(f"Link {loc} -> {loc_blob}")
                 os.symlink(loc_blob, loc)
@@ -265,7 +265,7 @@ class LocalFileStore(Store):
                     raise DDSException(
                         f"Requested to load path {path} but directory {loc_dir} does not exist"
                     )
-                if not os.path.exists(loc):
+                if not os.path.lexists(loc):
                     raise DDSException(
                         f"Requested to load path {path} but path {loc} does not exist"
                     )
